@@ -76,6 +76,22 @@ func RTWorkload(c *Ctx, sh *Shape, sc RTScale, f func(cs *RTCase)) {
 		}
 	}
 	structRecs := GenRecords(s, GenStruct, sc.StructCap, nil, c.Thorough)
+	if sh.Meta["universe"] != "" {
+		// enumerated struct shape: the structural enumeration only
+		for _, cfg := range []struct{ page, codec int }{{1, 0}, {2, 1}, {1000, 0}, {3, 2}} {
+			emit(&RTCase{ID: fmt.Sprintf("%s/struct/all/page=%d", sh.Name, cfg.page), Gen: GenStruct, Recs: structRecs, Partition: []int{len(structRecs)}, Page: cfg.page, Codec: cfg.codec})
+		}
+		if len(structRecs) >= 3 {
+			a := len(structRecs) / 3
+			emit(&RTCase{ID: fmt.Sprintf("%s/struct/3batches", sh.Name), Gen: GenStruct, Recs: structRecs, Partition: []int{a, a, len(structRecs) - 2*a}, Page: 2, Codec: 1})
+		}
+		for i := range structRecs {
+			if i%3 == 0 {
+				emit(&RTCase{ID: fmt.Sprintf("%s/struct/single%d", sh.Name, i), Gen: GenStruct, Recs: structRecs[i : i+1], Partition: []int{1}, Page: 1000, Codec: 0})
+			}
+		}
+		return
+	}
 	if sc.Defaults > 0 {
 		// no options at all: default page size (1000) and default codec, crossing the page limit twice
 		id := fmt.Sprintf("%s/defaults", sh.Name)
